@@ -69,6 +69,8 @@ PAYLOADS = [
     "0.00 {0.__class__.__mro__[1].__name__}", "0 {unit}", "0.0 {0}", "#,##0.00 {0!r}", "0%{x}", "0.00 {VERIF_CANARY()}", "0 {0.__init__.__globals__}", "0.0{{}}", "0}{0",
     "{titles}", "{functions}", "{sheets_size}", "{{titles}}", "a'+str(VERIF_CANARY())+'b", 'a"+str(VERIF_CANARY())+"b', "_xlfn.", "_xlws.", "_xlfn.IFS(1,2)",
     "x_xlfn.y", "📊", "𝒳 = 𝒴", "\\ud83d", "\\U0001F4CA",
+    # the file format's own escape spelling: as a text it is these very characters
+    "part_x0041_7", "_x003D_1+1", "_x0027_+VERIF_CANARY()+_x0027_", "_x000A_", "a_x005F_b", "_x0022_",
     "it's", "'", "''", "'''", "a'b'c", "\\\\", "{", "}", "{}", "%", "%s", "#", "# comment", "a\nb", "\t", " ", "' '", "None", "True", "x)", "(", "f(x)",
 ]
 ALPHABET = "abXY01 '\\\n#{}%()+,.:;=<>*?~!@$^&|[]_-/\"`é中📊𝒳"
